@@ -745,10 +745,25 @@ func (g *c8Gen) scalar(f *c8Field, v reflect.Value) {
 		}
 		v.SetBytes(b)
 	case c8ID:
-		if g.r.IntN(4) != 0 {
-			for i := 0; i < v.Len(); i++ {
+		// ids are values with a zero test (IsEmpty decides whether they are written at all): besides all-zero and dense random
+		// ids draw the boundary shapes — one half zero (64-bit Zipkin/B3 ids left-padded to 128 bit), a single non-zero byte
+		n := v.Len()
+		switch g.r.IntN(8) {
+		case 0, 1: // all zero
+		case 2, 3, 4:
+			for i := 0; i < n; i++ {
 				v.Index(i).SetUint(uint64(g.r.UintN(256)))
 			}
+		case 5: // high half zero
+			for i := n / 2; i < n; i++ {
+				v.Index(i).SetUint(uint64(1 + g.r.UintN(255)))
+			}
+		case 6: // low half zero
+			for i := 0; i < n/2; i++ {
+				v.Index(i).SetUint(uint64(1 + g.r.UintN(255)))
+			}
+		default: // one-hot
+			v.Index(g.r.IntN(n)).SetUint(uint64(1 + g.r.UintN(255)))
 		}
 	case c8Msg:
 		if f.ptr {
@@ -1597,6 +1612,58 @@ func c8WriteBadJSON(x any, class string, r *rand.Rand) (txt, j string, pf map[st
 	w := &c8JW{kind: "canon", r: r, pf: map[string]uint64{}, bad: class, badAt: r.IntN(cnt.badSeen)}
 	txt, j = w.msg(m, v)
 	return txt, j, w.pf, w.badHit, true
+}
+
+// c8SetIDs walks a payload and gives EVERY fixed-size id (TraceID / SpanID / ProfileID: arrays of bytes) the boundary shape
+// `shape`: "hot<p>" = only byte p%len non-zero, "hi0" = high half zero, "lo0" = low half zero. Returns how many ids it set.
+func c8SetIDs(v reflect.Value, shape string) int {
+	switch v.Kind() {
+	case reflect.Ptr, reflect.Interface:
+		if v.IsNil() {
+			return 0
+		}
+		return c8SetIDs(v.Elem(), shape)
+	case reflect.Struct:
+		n := 0
+		for i := 0; i < v.NumField(); i++ {
+			if v.Field(i).CanSet() {
+				n += c8SetIDs(v.Field(i), shape)
+			}
+		}
+		return n
+	case reflect.Slice:
+		if v.Type().Elem().Kind() == reflect.Uint8 {
+			return 0
+		}
+		n := 0
+		for i := 0; i < v.Len(); i++ {
+			n += c8SetIDs(v.Index(i), shape)
+		}
+		return n
+	case reflect.Array:
+		if v.Type().Elem().Kind() != reflect.Uint8 {
+			return 0
+		}
+		l := v.Len()
+		for i := 0; i < l; i++ {
+			v.Index(i).SetUint(0)
+		}
+		switch {
+		case strings.HasPrefix(shape, "hot"):
+			p, _ := strconv.Atoi(shape[3:])
+			v.Index(p % l).SetUint(uint64(0x11 + p))
+		case shape == "hi0":
+			for i := l / 2; i < l; i++ {
+				v.Index(i).SetUint(uint64(0x21 + i))
+			}
+		case shape == "lo0":
+			for i := 0; i < l/2; i++ {
+				v.Index(i).SetUint(uint64(0x31 + i))
+			}
+		}
+		return 1
+	}
+	return 0
 }
 
 // c8WriteJSON renders x (pointer to a protogen struct) as a document of the given variant kind.
